@@ -331,6 +331,9 @@ def ss_join(i, o, a, k):
         if n:
             out.append(o)
         out.append(p)
+    if any(type(p).__name__ == "SStr" for p in out):
+        from . import textmodel
+        return textmodel.concat([p if isinstance(p, (str, textmodel.SStr)) else textmodel.SStr([textmodel.Tok("str", p)]) for p in out])
     if not all(pyclass_kind(p) == "str" for p in out):
         i.raise_py("TypeError", "sequence item: expected str instance")
     return i.str_concat(out) if out else ""
